@@ -223,6 +223,7 @@ class Check:
 
     # ---------------------------------------------------------------------------------- violations
     def add_violation(self, key, rec, n=1):
+        key = key.replace(' ', '_')
         key = '%s:%s' % (self.pid, key) if not key.startswith(self.pid + ':') else key
         v = self.viol.setdefault(key, {'count': 0, 'first': rec})
         v['count'] += n
